@@ -20,7 +20,8 @@ EXTRA = ["", "// nothing\n", "/* only */\n", "a {}\n", "a { b: c }", "@media x {
          "a { b: [c d] (e f), g(h) }", "a { b: c; @media x { d: e; f { g: h } } }", "a { &:hover, .é & { b: \"\\e9\" } }",
          "@supports (a b\n  ) {c {d: e}}", "@bar x,\n  y;", "@foo a,\n b { c { d: e } }", "a {\n  b: c /* d\n}\n",
          "a { b: \"x\\a y\" }", "a { b: url(  a.png  ) }", "a { b: c !important }", "a { b: \"\\\"\" \'\\\'\' }",
-         "@media screen and (min-width: 1px),\n print { a { b: c } }", "a,\nb { c: d,\n e }"]
+         "@media screen and (min-width: 1px),\n print { a { b: c } }", "a,\nb { c: d,\n e }",
+         "/*! keep\n me */\na { /*! é */ b: c }", "/* drop\n me */\na { /* é */ b: c }"]
 
 
 def render_prog(prog):
@@ -74,7 +75,8 @@ class C07(Engine):
     trace = ("Trace_Framing", "Trace_Framing.cfg")
     mc_runs = {
         "quick": [("MC_Framing", "MC_Framing_q.cfg", {"workers": 4, "timeout": 600}), ("MC_Framing", "MC_Framing_step.cfg", {"workers": 4, "timeout": 600})],
-        "thorough": [("MC_Framing", "MC_Framing_t.cfg", {"workers": 4, "timeout": 1500}), ("MC_Framing", "MC_Framing_stept.cfg", {"workers": 4, "timeout": 900})],
+        "thorough": [("MC_Framing", "MC_Framing_t1.cfg", {"workers": 4, "timeout": 1500}), ("MC_Framing", "MC_Framing_t.cfg", {"workers": 4, "timeout": 1500}),
+                     ("MC_Framing", "MC_Framing_stept.cfg", {"workers": 4, "timeout": 1500})],
     }
     corpus_n = {"quick": 2500, "thorough": None}
     gen_n = {"quick": 60, "thorough": 600}
